@@ -11,7 +11,7 @@ namespace Neutrino.Shutdown
 open Neutrino.Gen.StopSites
 
 /-- classification of a site on the extracted order/events with the reviewed discharge table -/
-def siteOk (s : Site) : Bool := siteOkWith chainServiceStop stopEvents discharge s
+def siteOk (s : Site) : Bool := siteOkWith chainServiceStop stopEvents dischargeAll s
 
 def isKnownBlocking (s : Site) : Bool := (keysOf s).any (fun k => knownBlocking.contains k)
 
@@ -29,8 +29,20 @@ def diagnostics : List String :=
     ["C17 ChainService.Stop order changed: extracted [" ++ ", ".intercalate (chainServiceStop.map nameOf) ++ "] reviewed [" ++ ", ".intercalate (reviewedOrder.map nameOf) ++ "]"]) ++
   ((orderDeps.filter (fun d => !before chainServiceStop d.1 d.2.1)).map (fun d =>
     "C17 order dependency violated: `" ++ nameOf d.1 ++ "` must come before `" ++ nameOf d.2.1 ++ "` (" ++ d.2.2 ++ ")")) ++
-  ((discharge.filter (fun d => !sites.any d.covers)).map (fun d =>
+  ((dischargeAll.filter (fun d => !sites.any d.covers)).map (fun d =>
     "C17 stale discharge entry (matches no extracted site): " ++ nameOf d.fn ++ ":" ++ nameOf d.chan)) ++
+  ((capDischarge.filter (fun d => !d.ok)).map (fun d =>
+    "C17 capacity no longer covers the sends at blocking site " ++ nameOf d.fn ++ ":" ++ nameOf d.chan ++
+    " — the reviewed reason relies on `" ++ nameOf d.makeChan ++ "` being created in " ++ nameOf d.makeFn ++ " with capacity " ++ d.cap ++
+    " and on " ++ toString d.sendSites ++ " send statement(s); extracted: " ++
+    (if d.makeRows.isEmpty then "no such make(chan) in that function" else
+      ", ".intercalate (d.makeRows.map (fun m => "make(chan, " ++ m.cap ++ ") at " ++ m.file ++ ":" ++ toString m.line))) ++
+    (", ".intercalate ((d.sameFieldRows.filter (fun m => m.cap != d.cap && m.fn != d.makeFn)).map (fun m =>
+      "; also created in " ++ nameOf m.fn ++ " with capacity " ++ m.cap ++ " (" ++ m.file ++ ":" ++ toString m.line ++ ")"))) ++
+    ", " ++ toString (sendCount d.fn d.chan) ++ " send statement(s)")) ++
+  ((sites.filter (fun s => onWorker s.fn && !ruleA s && !ruleC dischargeAll s &&
+      s.alts.any (fun a => !a.send && (compOfQuit (resolveChan s.fn a.chan)).isSome) && !ruleB chainServiceStop stopEvents s)).map (fun s =>
+    "C17 " ++ describe s ++ " runs on a work-manager worker goroutine (per-response callback): its quit alternative is closed only after workManager.Stop has waited for the workers")) ++
   ((wgAdds.filter (fun a => !wgAddOk a)).map (fun a =>
     "C17 unbalanced WaitGroup: " ++ nameOf a.wg ++ ".Add(" ++ a.count ++ ") in " ++ nameOf a.fn ++ " (" ++ a.file ++ ":" ++ toString a.line ++
     ") is released by `" ++ a.release ++ "`, not by a goroutine's deferred Done, and has no reviewed entry")) ++
@@ -62,7 +74,7 @@ theorem C17_sites_counterexample :
 /-- the sites of the two rules that need no review: `default`, or a Stop-closed quit alternative -/
 theorem C17_rule_counts :
     (sites.filter ruleA).length + (sites.filter (fun s => !ruleA s && ruleB chainServiceStop stopEvents s)).length
-      + (sites.filter (fun s => !ruleA s && !ruleB chainServiceStop stopEvents s && ruleC discharge s)).length
+      + (sites.filter (fun s => !ruleA s && !ruleB chainServiceStop stopEvents s && ruleC dischargeAll s)).length
       + (sites.filter (fun s => !siteOk s)).length = sites.length := by
   decide +kernel
 
@@ -90,9 +102,25 @@ theorem C17_cond_wakers :
 
 /-- no stale entries: every discharge entry, every alias and every call-graph entry matches an extracted site -/
 theorem C17_discharge_used :
-    discharge.all (fun d => sites.any d.covers) = true ∧
+    dischargeAll.all (fun d => sites.any d.covers) = true ∧
     aliases.all (fun a => sites.any (fun s => s.fn == a.1 && s.alts.any (·.chan == a.2.1))) = true ∧
     calledFrom.all (fun e => sites.any (fun s => s.fn == e.1)) = true := by
+  refine ⟨?_, ?_, ?_⟩ <;> decide +kernel
+
+/-- **Capacity reasons are checked, not only reviewed**: for every discharge entry of the kind "the channel's capacity
+covers every send", the channel's creation in the named function exists in the regenerated `make(chan …)` table with
+exactly the capacity the reason relies on, so does every other creation of a channel stored in the same struct
+field, and the site's function contains exactly the number of send statements on it that were reviewed.  A capacity
+that is capped, a second creation site or an added send breaks this theorem, and the diagnostics name the site. -/
+theorem C17_capacity_checked : capDischarge.all (·.ok) = true := by decide +kernel
+
+/-- **Callbacks are judged against the work manager's Wait**: the extractor finds the per-response callbacks handed
+to the work manager, and every blocking site in one of them (or in a function one of them calls directly) is
+classified with `workManager` among the components that may be waiting for it — whatever struct it is a method of. -/
+theorem C17_callbacks_on_workers :
+    workerCallbacks.isEmpty = false ∧
+    sites.all (fun s => !onWorker s.fn || (waitedBy s.fn s.recv).contains "workManager") = true ∧
+    (sites.any (fun s => workerCallbacks.contains s.fn)) = true := by
   refine ⟨?_, ?_, ?_⟩ <;> decide +kernel
 
 /-- **WaitGroup balance**: every `wg.Add` of the shutdown-relevant files launches goroutine(s) that hand the slot back
